@@ -1,4 +1,5 @@
-(* C20 -- precedence show keyword > object > family default > base default, on the whole generated schema *)
+(* C20 -- precedence show keyword > object > own family default > generic family default > base default,
+   on the whole generated schema *)
 From Coq Require Import ZArith List Bool String Ascii.
 From MV Require Import Lib.STree Model.StyleModel Gen.GenStyle Model.StyleExec Model.StyleSpec.
 Import ListNotations.
@@ -8,8 +9,11 @@ Open Scope list_scope.
 Lemma prec_all_ok : prec_all = true.
 Proof. vm_cast_no_check (eq_refl true). Qed.
 
-(* show(cuboid, style_magnetization_arrow_size=2) on a cuboid whose arrow size was set to 0.5: resolves to 0.5 *)
-Lemma prec_alias_witness :
-  prec_holds "Cuboid" ["magnetization"; "arrow"; "size"] (VInt 2) (VFlt 1 2) (VInt 0) (VInt 2)
-             (mkSrc true true false false) false NAttr = false.
-Proof. vm_compute. reflexivity. Qed.
+(* `label` is a leaf of every style, but show(obj, style_label=..) is rejected: validate_style_keys only knows
+   the first-level keys of the DEFAULTS literal, which has no `label` *)
+Lemma show_label_witness :
+  snd (get_style colors (class_schema "Cuboid") (class_families "Cuboid") dstyle_schema
+                 (def_style_state pristine) valid_keys (fresh_state (class_schema "Cuboid"))
+                 (show_style_kwargs [("style_label", Leaf (Some (VStr "lbl")))])) = Some EValue
+  /\ has_leaf (class_schema "Cuboid") ["label"] = true.
+Proof. split; vm_compute; reflexivity. Qed.
